@@ -420,6 +420,111 @@ impl C08 {
         }
     }
 
+    /// A variable that held a floating value when a DEFINT made it an Integer variable: whatever it reads as
+    /// afterwards, arithmetic stored back into it is Integer arithmetic -- OVERFLOW or a value within the range,
+    /// held as an Integer.
+    fn retyped_variable_case(&self, ctx: &mut Ctx, rng: &mut Rng) {
+        let (name, def) = *rng.pick(&[("SUM", "DEFINT S"), ("ZZ", "DEFINT X-Z"), ("AB(2)", "DEFINT A"), ("S", "DEFINT S"), ("Q1", "DEFINT A-Z"), ("MM(1,1)", "DEFINT M")]);
+        let big = *rng.pick(&["30000", "32767.5", "1E10", "-40000", "32000.25", "-32768.5", "65535"]);
+        let k = *rng.pick(&["20000", "1", "-20000", "0.75", "32767"]);
+        let text = format!("{}={}:{}:{}={}+{}:PRINT {}", name, big, def, name, name, k, name);
+        mon::journal(&text);
+        let mut s = Session::new();
+        s.drain(8);
+        let mark = s.mark();
+        if s.command(&text, 64) != Stop::Stopped {
+            ctx.violation("no-stop", "pipeline:no-stop", &format!("{:?} did not return to the prompt", text), &text);
+            return;
+        }
+        let out = transcript(s.events_since(mark), Norm::STD);
+        ctx.eval(&text, true);
+        ctx.count("retyped_variable_statements");
+        let ok = if out.starts_with("?OVERFLOW") {
+            true
+        } else {
+            out.strip_suffix(" \nREADY.\n<STOPPED>").and_then(|t| t.trim().parse::<i64>().ok()).map(|v| (-32768..=32767).contains(&v)).unwrap_or(false)
+        };
+        let pr = s.rt.verif_probe();
+        let base = name.split('(').next().unwrap_or(name);
+        let mistyped: Vec<String> = pr
+            .vars
+            .iter()
+            .filter(|(k, _)| k.as_str() == base || k.ends_with(&format!(",{}", base)))
+            .filter(|(_, v)| !matches!(v, Val::Integer(_)))
+            .map(|(k, v)| format!("{}={:?}", k, v))
+            .collect();
+        if !ok || !mistyped.is_empty() {
+            ctx.violation(
+                "pipeline-mismatch",
+                "pipeline:retyped-variable",
+                &format!("{:?} printed {:?} (expected ?OVERFLOW or an Integer within range); non-Integer values held by the Integer variable: {:?}", text, out, mistyped),
+                &text,
+            );
+        }
+    }
+
+    /// A break (interrupt) arriving at any instruction boundary of a program whose Integer arithmetic fails, then
+    /// CONT: the OVERFLOW / DIVISION BY ZERO is still reported and nothing behind the failing statement runs.
+    fn interrupted_error_case(&self, ctx: &mut Ctx, rng: &mut Rng) {
+        const PROGS: [(&[&str], &str, &str); 6] = [
+            (&["10 A%=30000", "20 B%=A%*1.5", "30 PRINT \"AFTER\";B%"], "OVERFLOW", "AFTER"),
+            (&["10 FOR I%=32766 TO 32767:NEXT", "20 PRINT \"AFTER\";I%"], "OVERFLOW", "AFTER"),
+            (&["10 A%=-32767-1", "20 PRINT -A%", "30 PRINT \"AFTER\""], "OVERFLOW", "AFTER"),
+            (&["10 A%=200:B%=A%*A%:PRINT \"AFTER\";B%"], "OVERFLOW", "AFTER"),
+            (&["10 A%=7:PRINT \"X\";:B%=A%\\0:PRINT \"AFTER\""], "DIVISION BY ZERO", "AFTER"),
+            (&["10 DIM Q%(3)", "20 FOR I=0 TO 3:Q%(I)=16000*(I+1):NEXT", "30 PRINT \"AFTER\""], "OVERFLOW", "AFTER"),
+        ];
+        let (lines, err, after) = PROGS[rng.usize(PROGS.len())];
+        let k = rng.range(1, 60) as u64;
+        let text = format!("{}\nRUN  (interrupt after {} execute(1) calls, then CONT)", lines.join("\n"), k);
+        mon::journal(&text);
+        let mut s = Session::new();
+        s.drain(8);
+        for l in lines {
+            s.command(l, 16);
+        }
+        let mark = s.mark();
+        s.enter("RUN");
+        let mut stopped = false;
+        for _ in 0..k {
+            if let Some(Stop::Stopped) = s.step_q(1) {
+                stopped = true;
+                break;
+            }
+        }
+        if !stopped {
+            s.interrupt();
+            if s.drain(64) != Stop::Stopped {
+                ctx.violation("no-stop", "pipeline:interrupt-no-stop", "an interrupted run did not stop", &text);
+                return;
+            }
+            let sofar = transcript(s.events_since(mark), Norm::STD);
+            if sofar.contains("?BREAK") && !sofar.contains("?BREAK IN") {
+                // the break landed in the direct RUN command itself: nothing to continue
+                ctx.count("interrupts_before_the_program_started");
+                return;
+            }
+            if sofar.contains("?BREAK") && !sofar.contains(err) {
+                s.enter("CONT");
+                if s.drain(4000) != Stop::Stopped {
+                    ctx.violation("no-stop", "pipeline:cont-no-stop", "CONT did not return to the prompt", &text);
+                    return;
+                }
+            }
+        }
+        let out = transcript(s.events_since(mark), Norm::STD);
+        ctx.eval(&text, true);
+        ctx.count("interrupted_error_runs");
+        if !out.contains(err) || out.contains(after) {
+            ctx.violation(
+                "pipeline-mismatch",
+                "pipeline:interrupted-error",
+                &format!("the run must end in ?{} and never reach {:?}; transcript {:?}", err, after, out),
+                &text,
+            );
+        }
+    }
+
     /// Integer literals in every spelling (decimal, &H, &octal) under unary minus, ABS and division by -1 written
     /// directly in the expression, where a compiler may fold constants: the value the literal itself prints as is
     /// taken from the interpreter, the operation on it must be exact or OVERFLOW.
@@ -509,7 +614,13 @@ impl C08 {
             ("MOD", BinOp::Mod),
             ("^", BinOp::Pow),
         ];
-        let which = rng.usize(16);
+        let which = rng.usize(18);
+        if which == 16 {
+            return self.interrupted_error_case(ctx, rng);
+        }
+        if which == 17 {
+            return self.retyped_variable_case(ctx, rng);
+        }
         if which >= 13 {
             return self.literal_fold_case(ctx, rng);
         }
